@@ -439,6 +439,7 @@ class Result:
             "wall_s": round(time.time() - self.t0, 2),
             "violations": nviol,
         }
-        d = VERIF / "evidence"
-        d.mkdir(exist_ok=True)
+        # runs against a scratch copy (seeded changes, mutants) must not overwrite the committed evidence
+        d = VERIF / "evidence" if str(REPO) == "/repo" else VERIF / "work" / "evidence_scratch"
+        d.mkdir(parents=True, exist_ok=True)
         (d / ("%s.json" % self.pid)).write_text(json.dumps(ev, indent=1, default=str))
